@@ -244,15 +244,39 @@ VH_AREA(explain) {
         Circuit big = a.replay.empty() ? relabel(c, relab) : c;
         std::map<uint32_t, uint32_t> to_compact;
         Circuit comp = compact_circuit(big, &to_compact);
-        out_case(k, esc_line(big.str()));
         DetectorErrorModel dem;
+        bool analysable = true;
         try {
             dem = ErrorAnalyzer::circuit_to_detector_error_model(big, false, false, false, 1.0, false, false);
         } catch (const std::invalid_argument &) {
-            st.hit("skipped.not_analysable_without_gauge");
+            analysable = false;
+        }
+        if (!analysable) {
+            // Not analysable without gauge detectors.  `explain_errors` analyses with gauge detectors allowed, so when that analysis
+            // succeeds the call must at least terminate normally; what it reports for such circuits is not judged (the symptoms of a
+            // fault are then only defined up to the gauge).  Known finding D45: it trips an assertion / misattributes.
+            bool gauge_ok = true;
+            try {
+                ErrorAnalyzer::circuit_to_detector_error_model(big, false, false, true, 1.0, false, false);
+            } catch (const std::invalid_argument &) {
+                gauge_ok = false;
+            }
+            st.hit(gauge_ok ? "skipped.gauge_detectors" : "skipped.not_analysable");
+            // (one in eight of them: every abort costs a restart of the harness)
+            Rng rg = rng.sub(781);
+            if (gauge_ok && (rg.chance(0.125) || !a.replay.empty())) {
+                out_case(k, "gauge-detectors " + esc_line(big.str()));
+                try {
+                    auto ex = ErrorMatcher::explain_errors_from_circuit(big, nullptr, false);
+                    st.hit("gauge_detectors.explain_returned", 1);
+                } catch (const std::invalid_argument &) {
+                    st.hit("gauge_detectors.explain_refused", 1);
+                }
+            }
             if (!a.replay.empty()) break;
             continue;
         }
+        out_case(k, esc_line(big.str()));
         st.hit("analysable");
         std::string w = wire_circuit(comp);
         auto tgt = [&](GateTarget t) {
